@@ -507,7 +507,7 @@ class Wrapper(Unit):
                                              sv.cmp("==", fr2.env.get("nsnapshots"), sv.add(k, 1)),
                                              sv.cmp("==", st2.heap[f.sid].data["pos"], sv.SV(B(sv.znum(sv.add(k, 1)))))))
                         prev = sv.fresh_int("q")
-                        older = c2.fn(prev)
+                        older = (c2.base_fn if hasattr(c2, "base_fn") else c2.fn)(prev)      # an item before the appended one (prev < k below)
                         otag = older.content.get("_frame") if isinstance(older, Ref) and older.kind == "obj" else None
                         goal = z3.And(goal, sv.zb(sv.implies(sv.and_(sv.cmp(">=", prev, 0), sv.cmp("<", prev, k)), sv.cmp("==", otag, prev) if otag is not None else False)))
                 assum = st2.all_assumptions()
